@@ -5,6 +5,7 @@ import json
 import multiprocessing
 import os
 import random
+import re
 import shutil
 import signal
 import subprocess
@@ -140,8 +141,19 @@ def run_vexec(steps, wd, name, profile="verifdbg", stack_mb=8, timeout=300, bina
                     continue
                 try:
                     records.append(json.loads(line))
-                except ValueError:
-                    records.append({"unparsable": line[:200]})
+                except (ValueError, RecursionError):
+                    # e.g. a result value nested thousands of levels deep: keep what a flat scan can tell
+                    m = re.match(r'\{"i":(\d+),"op":"(\w+)"', line)
+                    rec = {"unparsable": line[:200], "too_deep": True}
+                    if m:
+                        rec["i"] = int(m.group(1))
+                        rec["op"] = m.group(2)
+                    mp = re.search(r'"p":"(\w+)"', line[:400])
+                    if mp:
+                        rec["p"] = mp.group(1)
+                    if '"panic":' in line:
+                        rec["res"] = {"panic": "see raw record", "loc": ""}
+                    records.append(rec)
     journal = None
     jp = op + ".journal"
     if os.path.exists(jp):
